@@ -508,6 +508,7 @@ class SQLParser:
                 cast_params.append(cls._pop_as_int(parenthesis_scanner))
             while parenthesis_scanner.search_and_move_one_type_str(","):
                 cast_params.append(cls._pop_as_int(parenthesis_scanner))
+            parenthesis_scanner.close()
             cast_params = tuple(cast_params)
         else:
             cast_params = None
